@@ -89,9 +89,9 @@ Lemma root_query : forall fuel env s n o fr ms s1,
 Proof.
   intros fuel env s n o fr ms s1 HI0 Eq.
   destruct (proj1 (msound_all p rk (set_log s []) Hrk Hproj Hkeys fuel) env [] [] [] CUser None n _ o fr ms s1
-              HI0 (StkOk_nil rk n) (fun _ => eq_refl) I eq_refl eq_refl (or_introl eq_refl) Eq)
+              HI0 (StkOk_nil rk n) (fun _ => eq_refl) I eq_refl (or_introl eq_refl) Eq)
     as (HI1 & _ & _ & i & Hi & Hv & Ho).
-  split; [exact HI1|]. exists i. auto.
+  split; [exact HI1|]. exists i. split; [exact Hi|]. split; [exact Hv|]. exact (Ho eq_refl).
 Qed.
 
 Lemma BInv_of : forall sA env s, MInv p rk sA [] env s -> BInv env s.
